@@ -68,3 +68,30 @@ add("C20", EX, "runtime monitor: three naming modes executed per node of the dec
     "Every node of the C03 exploration in all modes and both full situations; tables nested; every valid configuration "
     "name must map to names observed from the decoder.",
     TB + "Upper-case C-A, C-1, F13, M-<space> are not configuration-file keys (not judged).")
+add("C02", EX, "runtime monitor: recorded out_stream interpreted by a reference terminal (xterm pending-wrap semantics) compared cell by cell after every render",
+    "Histories of renders and resizes (random junk left on the screen) on a real FullscreenWindow, sizes 1-6 x 1-8, array "
+    "height/row-length classes incl. larger than the terminal; every cell, the cursor and the scroll counter are checked "
+    "after each render; thorough starts 2000 histories at each of the 48 sizes.",
+    TB + "The terminal model is the root of trust; a sequence it does not know makes the run inconclusive. Single-column characters.")
+add("C07", EX, "runtime monitor: reference terminal with scrollback + origin tracking in absolute line numbers",
+    "Histories on a real CursorAwareWindow with scripted cursor-query replies from the model: history above the window, "
+    "window rows, scroll count, return value and cursor cell checked after every render and after exit.",
+    TB + "Rows not longer than the width; DSR replies come from the model.")
+add("C08", EX, "runtime monitor: client-boundary history recording + offline history checker (conservation, exactly-once, ordering, timing lower bounds) with yield injection",
+    "Sequential and concurrent histories against a real Input over a byte-transparent pty; an offline checker decides "
+    "conservation/order of bytes, exactly-once per trigger, scheduled-event order, timeouts, paste segmentation, name-mode "
+    "segmentation across the 1024-byte read size; sys.monitoring yield injection shakes thread schedules and distinct "
+    "interleavings are counted.",
+    TB + "Not all interleavings: sampled schedules only; bursts <= 4000 bytes; arrivals are whole keypresses; timing conditions are one-sided.")
+add("C12", "fault_enumeration", "runtime monitor: before/after state snapshots at every line-level crash point (sys.monitoring failpoints), option matrix, real SIGINTs",
+    "For each scenario of the option matrix the body is first run to count the line-level events of curtsies code, then "
+    "re-run once per event raising a KeyboardInterrupt subclass there; tty attributes, file status flags, SIGINT handler, "
+    "wake-up fd, fd table and the reference terminal's cursor/buffer state must equal the pre-entry snapshot. Plus "
+    "operation-boundary crashes over the whole matrix, real SIGINTs into blocked requests and fd-leak cycles.",
+    TB + "Crash points are statement boundaries (a bare try: line and a with statement's exit sequence are skipped as impossible "
+    "crash points); exceptions inside __enter__/__exit__ of the context under test and sub-statement windows are out of reach.")
+add("C18", EX, "runtime monitor: scripted in_stream accounting for the report parser; movement conservation on the reference terminal incl. nested queries",
+    "Random extra/report/trailing scripts with OSError injection: return value, callback bytes, ValueError, characters "
+    "consumed; histories of renders, cursor movements and (nested) get_cursor_vertical_diff calls: change of "
+    "top_usable_row + returned values = movement.",
+    TB + "extra never contains a complete report.")
